@@ -130,3 +130,26 @@ def run(rep, tier):
     order = [callee_of(c)[1] for c in cast.calls_in(m.body) if callee_of(c)[1] in ('load', 'run')]
     rep.rule('R4', 'the image is loaded into the DUT memory before the clock starts', floor=1)
     rep.add('R4', 'main:load-before-run', order[:2] == ['load', 'run'], pos(m.node) + ' main (hextb.cpp)', 'call order %s' % order, nontrivial=False)
+    rule_shim_defined(rep, idx)
+
+
+def rule_shim_defined(rep, idx):
+    """R5: what the system-call shim hands back to the program is defined on every path (nothing is left to whatever the randomised
+    memory held): every READ path stores into the result slot, every EXIT path assigns the exit value."""
+    from . import c06
+    rep.rule('R5', 'the system-call shim leaves nothing to the power-on contents of memory: on every path of a READ request it stores a '
+             'value into the result slot (mem[mem[1]+1]), on every path of an EXIT request it sets the exit value', floor=2)
+    f = idx.func('handleSyscall')
+    where = pos(f.node) + ' handleSyscall (hextb.cpp)'
+    for k, nm in ((2, 'READ'), (0, 'EXIT')):
+        paths, _ = c06.syscall_summary_hextb(idx, k)
+        bad = []
+        for pc, status, events, stores, ex, _r in paths:
+            if status != 'run':
+                continue
+            if nm == 'READ' and not stores:
+                bad.append('no store on the path %r' % (pc,))
+            if nm == 'EXIT' and ex is None:
+                bad.append('exit value not set on the path %r' % (pc,))
+        rep.add('R5', 'shim:%s:defined-on-every-path' % nm, not bad and bool(paths), where,
+                ('; '.join(bad))[:700] if bad else '%d path(s), each %s' % (len(paths), 'stores the result' if nm == 'READ' else 'sets the exit value'))
